@@ -164,6 +164,11 @@ def root_var(e):
             e = strip_casts(e["base"])
         elif k == "bin" and e["op"] in ("+", "-"):
             e = strip_casts(e["l"])
+        elif k == "complit":
+            # transparent-union argument (glibc __SOCKADDR_ARG): (union){ ptr }
+            e = strip_casts(e["e"])
+        elif k == "init" and len(e.get("items", [])) == 1:
+            e = strip_casts(e["items"][0])
         else:
             return None
     return None
